@@ -59,27 +59,36 @@ def gen_concat():
         out.append('pub struct A%d; impl ConstStr for A%d { const VAL: &\'static str = "%s"; }' % (k, k, PAT_A[:k]))
         out.append('pub struct B%d; impl ConstStr for B%d { const VAL: &\'static str = "%s"; }' % (k, k, PAT_B[:k]))
     n = 0
+    # the contract of MaybeConstStr (concat.rs): LEN is the exact length, and *if* HAVE_VAL then MAYBE_VAL is the exact text.  Whether a
+    # given length is served from the const table or from the heap fallback is an implementation choice and is not demanded here.
+    def ob(ty, text):
+        return ('const _: () = assert!(<%s as MaybeConstStr>::LEN == %d && (!<%s as MaybeConstStr>::HAVE_VAL || str_eq(<%s as MaybeConstStr>::MAYBE_VAL, "%s")));'
+                % (ty, len(text), ty, ty, text))
     for total in range(0, 101):
         splits = sorted({(0, total), (total, 0), (total // 2, total - total // 2), (1, total - 1) if total >= 1 else (0, total)})
         for a, b in splits:
-            ty = "Concatenated<A%d, B%d>" % (a, b)
-            out.append('const _: () = assert!(<%s as MaybeConstStr>::HAVE_VAL && <%s as MaybeConstStr>::LEN == %d && str_eq(<%s as MaybeConstStr>::MAYBE_VAL, "%s"));' % (
-                ty, ty, total, ty, PAT_A[:a] + PAT_B[:b]))
+            out.append(ob("Concatenated<A%d, B%d>" % (a, b), PAT_A[:a] + PAT_B[:b]))
             n += 1
-    for a, b in ((101, 0), (0, 101), (50, 51), (100, 50), (150, 0)):
-        ty = "Concatenated<A%d, B%d>" % (a, b)
-        out.append("const _: () = assert!(!<%s as MaybeConstStr>::HAVE_VAL && <%s as MaybeConstStr>::LEN == %d);" % (ty, ty, a + b))
+    for a, b in ((101, 0), (0, 101), (50, 51), (100, 50), (150, 0), (1, 100), (100, 1), (150, 150)):
+        out.append(ob("Concatenated<A%d, B%d>" % (a, b), PAT_A[:a] + PAT_B[:b]))
         n += 1
-    # nested chains
-    for a, b, c in ((3, 4, 5), (0, 0, 0), (30, 30, 40), (1, 98, 1)):
-        ty = "Concatenated<Concatenated<A%d, B%d>, A%d>" % (a, b, c)
-        out.append('const _: () = assert!(<%s as MaybeConstStr>::HAVE_VAL && str_eq(<%s as MaybeConstStr>::MAYBE_VAL, "%s"));' % (ty, ty, PAT_A[:a] + PAT_B[:b] + PAT_A[:c]))
-        ty = "Concatenated<A%d, Concatenated<B%d, A%d>>" % (a, b, c)
-        out.append('const _: () = assert!(<%s as MaybeConstStr>::HAVE_VAL && str_eq(<%s as MaybeConstStr>::MAYBE_VAL, "%s"));' % (ty, ty, PAT_A[:a] + PAT_B[:b] + PAT_A[:c]))
+    # nested chains, short and beyond the const limit, in both association orders and three levels deep
+    for a, b, c in ((3, 4, 5), (0, 0, 0), (30, 30, 40), (1, 98, 1), (60, 30, 20), (60, 50, 5), (5, 60, 50), (0, 101, 3), (101, 0, 3), (3, 0, 101),
+                    (100, 0, 1), (50, 50, 1), (1, 50, 50), (120, 0, 0), (0, 0, 120), (0, 120, 0)):
+        out.append(ob("Concatenated<Concatenated<A%d, B%d>, A%d>" % (a, b, c), PAT_A[:a] + PAT_B[:b] + PAT_A[:c]))
+        out.append(ob("Concatenated<A%d, Concatenated<B%d, A%d>>" % (a, b, c), PAT_A[:a] + PAT_B[:b] + PAT_A[:c]))
         n += 2
-    ty = "Concatenated<Concatenated<A60, B30>, A20>"
-    out.append("const _: () = assert!(!<%s as MaybeConstStr>::HAVE_VAL && <%s as MaybeConstStr>::LEN == 110);" % (ty, ty))
-    n += 1
+    for a, b, c, e in ((10, 10, 10, 10), (40, 40, 40, 4), (4, 40, 40, 40), (70, 40, 0, 7), (0, 70, 40, 7), (26, 25, 25, 25)):
+        text = PAT_A[:a] + PAT_B[:b] + PAT_A[:c] + PAT_B[:e]
+        out.append(ob("Concatenated<Concatenated<Concatenated<A%d, B%d>, A%d>, B%d>" % (a, b, c, e), text))
+        out.append(ob("Concatenated<A%d, Concatenated<B%d, Concatenated<A%d, B%d>>>" % (a, b, c, e), text))
+        out.append(ob("Concatenated<Concatenated<A%d, B%d>, Concatenated<A%d, B%d>>" % (a, b, c, e), text))
+        n += 3
+    # the const table is actually in use for short names (coverage of the table path, stated separately from the contract): at least the
+    # sizes the macro produces for ordinary field names resolve without allocation
+    for a, b in ((0, 0), (3, 4), (20, 20)):
+        out.append("const _: () = assert!(<Concatenated<A%d, B%d> as MaybeConstStr>::HAVE_VAL);" % (a, b))
+        n += 1
     return "\n".join(out) + "\n", n
 
 
@@ -162,14 +171,14 @@ def run_witness(repo=None):
             with open(os.path.join(d, "src", "lib.rs"), "w") as f:
                 f.write("pub mod cf;\npub mod %s;\n" % name)
             r = subprocess.run(["cargo", "+nightly", "check", "--offline", "-q", "--lib"], cwd=d, env=env, capture_output=True, text=True)
-            errs = re.findall(r"error(?:\[E\d+\])?: (.*)\n\s+--> src/%s.rs:(\d+)" % name, r.stderr)
+            errs = re.findall(r"error(?:\[E\d+\])?: ([^\n]*)(?:\n(?!\s*-->)[^\n]*)*?\n\s+--> src/%s.rs:(\d+)" % name, r.stderr)
             failed = []
             src = open(os.path.join(d, "src", name + ".rs")).read().splitlines()
             for msg, line in errs:
-                failed.append({"line": int(line), "obligation": src[int(line) - 1][:300], "error": msg[:200]})
+                failed.append({"line": int(line), "obligation": src[int(line) - 1][:700], "error": msg[:200]})
             other = r.returncode != 0 and not failed
             res["groups"][name] = {"obligations": n, "discharged": n - len({f["line"] for f in failed}) if not other else 0,
-                                   "failed": failed[:20], "build_error": r.stderr[-1500:] if other else ""}
+                                   "failed": failed[:20], "build_error": (r.stderr[:1500] + "\n...\n" + r.stderr[-600:] if len(r.stderr) > 2100 else r.stderr) if other else ""}
         check_group("units", n_units)
         check_group("concat", n_concat)
         with open(os.path.join(d, "src", "lib.rs"), "w") as f:
@@ -201,14 +210,16 @@ def run_witness(repo=None):
 def report_group(ctx, rule, res, name, what):
     g = res["groups"].get(name, {})
     if g.get("build_error"):
-        ctx.bad(rule, "witness-%s#build" % name, "", "witness crate does not build against this tree: %s" % g["build_error"][-400:])
+        ctx.bad(rule, "witness-%s#build" % name, "", "witness crate does not build against this tree: %s" % g["build_error"][:900])
         return
     n, d = g.get("obligations", 0), g.get("discharged", 0)
     for f in g.get("failed", []):
         ob = re.sub(r"\s+", " ", f["obligation"])
         m = re.search(r"assert!\((.*)\);", ob)
-        ctx.bad(rule, "witness-%s#%s" % (name, (m.group(1) if m else ob)[:140]), "generated %s.rs:%d" % (name, f["line"]),
-                "the compiler's constant evaluator refutes the obligation `%s` (%s)" % ((m.group(1) if m else ob)[:200], f["error"]))
+        subj = re.search(r"assert!\(!?<(.+?) as (?:MaybeConstStr|Convert<.+?>|UnitTag)>", ob)
+        label = subj.group(1) if subj and name == "concat" else (m.group(1) if m else ob)
+        ctx.bad(rule, "witness-%s#%s" % (name, label[:140]), "generated %s.rs:%d" % (name, f["line"]),
+                "the compiler's constant evaluator refutes the obligation `%s` (%s)" % ((m.group(1) if m else ob)[:420], f["error"][:120]))
     if d:
         ctx.ok(rule, "witness-%s#%d-const-obligations" % (name, d), "", "%d of %d %s discharged by rustc's constant evaluator" % (d, n, what))
     ctx.extra_obligations = getattr(ctx, "extra_obligations", 0) + n
